@@ -38,6 +38,7 @@ fn run(cx: &mut Cx, mode: Mode) {
         session(cx, m, s, issuer, holder, ideal.clone());
     }
     cx.run();
+    if mode == Mode::Complete && cx.ch.chance("concurrent_burst", 1, 6) { crate::scen_burst::sign_burst(cx); }
 }
 
 fn session(cx: &mut Cx, mode: Mode, s: u64, issuer: NodeId, holder: NodeId, ideal: Shared) {
